@@ -28,15 +28,17 @@ type fakeConn struct {
 func (c *fakeConn) Close() error { c.mu.Lock(); c.closed++; c.mu.Unlock(); return nil }
 
 type c18Behaviour struct {
-	Kind      string        `json:"kind"` // ok, fail, hang, ok_ignore_ctx, fail_ignore_ctx
+	Kind      string        `json:"kind"` // ok, fail, hang, ok_ignore_ctx, fail_ignore_ctx, reject_retry
 	D         time.Duration `json:"d"`
+	Kind2     string        `json:"kind2,omitempty"` // reject_retry: what the retry with the server's retry configs does (ok, fail, hang)
+	D2        time.Duration `json:"d2,omitempty"`
 	Addr      string        `json:"addr"`
 	ErrTarget bool          `json:"err_target"` // resolve error target (never dialed)
 	Filtered  bool          `json:"filtered"`   // excluded by the address family of the network
 }
 
 type c18Event struct {
-	Kind     string // start, finish
+	Kind     string // start, finish, restart (the one retry after an ECH rejection with retry configs)
 	Target   int
 	T        time.Duration
 	Deadline time.Duration // ctx deadline relative to start (start events)
@@ -50,8 +52,8 @@ var c18Grid = []time.Duration{0, time.Millisecond, 10 * time.Millisecond, 100 * 
 
 func TestC18(t *testing.T) {
 	rec := ev.Get("C18")
-	rec.Rule("per case a synctest bubble: 0..5 targets given as comma-separated IP literals (plus resolve-error targets from over-long names and targets removed by the address family), per-target behaviour {succeed after d, fail after d, hang until the context ends, ignore the context and succeed/fail after d} with d from a 12-point grid 0..40 s, MaxConcurrency 0..4, ConcurrencyDelay {default,10 ms,1 s,5 s}, Timeout {default,50 ms,2 s,35 s}, caller cancellation at a drawn time or never, network tcp/tcp4/tcp6. Oracle: invariants over the virtual-time event log (order, concurrency bound, stagger, per-attempt deadline, first success wins and is returned at its completion time, losers closed, joined errors, prompt cancellation, attempts begun after the outcome see a cancelled context) and no goroutine left blocked when the bubble ends. distinct = (behaviour vector, options); non-trivial = 2+ dialed targets and at least one success")
-	rec.Mandatory("two_successes_in_window", "success_after_cancel", "all_hang", "maxconc1_5targets", "late_winner", "no_address", "all_fail", "caller_cancel", "resolve_error_target")
+	rec.Rule("per case a synctest bubble: 0..5 targets given as comma-separated IP literals (plus resolve-error targets from over-long names and targets removed by the address family), per-target behaviour {succeed after d, fail after d, hang until the context ends, ignore the context and succeed/fail after d, be rejected by the server with retry configs after d and then succeed/fail/hang on the one retry} with d from a 12-point grid 0..40 s, MaxConcurrency 0..4, ConcurrencyDelay {default,10 ms,1 s,5 s}, Timeout {default,50 ms,2 s,35 s}, caller cancellation at a drawn time or never, network tcp/tcp4/tcp6. Oracle: invariants over the virtual-time event log (order, concurrency bound, stagger, per-attempt deadline (the retry after an ECH rejection shares the deadline the attempt began with), first success wins and is returned at its completion time, losers closed, joined errors, prompt cancellation, attempts begun after the outcome see a cancelled context) and no goroutine left blocked when the bubble ends. distinct = (behaviour vector, options); non-trivial = 2+ dialed targets and at least one success")
+	rec.Mandatory("two_successes_in_window", "success_after_cancel", "all_hang", "maxconc1_5targets", "late_winner", "no_address", "all_fail", "caller_cancel", "resolve_error_target", "ech_reject_retry")
 	rapid.Check(t, func(rt *rapid.T) {
 		network := rapid.SampledFrom([]string{"tcp", "tcp", "tcp4", "tcp6"}).Draw(rt, "network")
 		n := rapid.IntRange(0, 5).Draw(rt, "ntargets")
@@ -59,6 +61,11 @@ func TestC18(t *testing.T) {
 		var addrs []string
 		for i := 0; i < n; i++ {
 			b := c18Behaviour{Kind: rapid.SampledFrom([]string{"ok", "ok", "fail", "fail", "hang", "ok_ignore_ctx", "fail_ignore_ctx"}).Draw(rt, "kind"), D: c18Grid[rapid.IntRange(0, len(c18Grid)-1).Draw(rt, "d")]}
+			if rapid.IntRange(0, 5).Draw(rt, "ech_reject") == 0 {
+				b.Kind = "reject_retry"
+				b.Kind2 = rapid.SampledFrom([]string{"ok", "fail", "hang", "hang"}).Draw(rt, "kind2")
+				b.D2 = c18Grid[rapid.IntRange(0, len(c18Grid)-1).Draw(rt, "d2")]
+			}
 			switch rapid.IntRange(0, 9).Draw(rt, "addrkind") {
 			case 0:
 				b.ErrTarget = true
@@ -107,6 +114,7 @@ func TestC18(t *testing.T) {
 		for i := range sentinels {
 			sentinels[i] = fmt.Errorf("attempt %d failed", i)
 		}
+		rejected := make([]bool, len(bs))
 		var retConn *fakeConn
 		var retErr error
 		var retAt time.Duration
@@ -126,7 +134,18 @@ func TestC18(t *testing.T) {
 						return nil, errors.New("unknown")
 					}
 					b := bs[i]
-					e := c18Event{Kind: "start", Target: i, T: time.Since(start), CtxErr: ctx.Err() != nil}
+					kindNow, dNow, evKind := b.Kind, b.D, "start"
+					mu.Lock()
+					if rejected[i] {
+						// dialOne's single retry with the retry configs of the rejection
+						kindNow, dNow, evKind = b.Kind2, b.D2, "restart"
+						rejected[i] = false
+						if tc == nil || string(tc.EncryptedClientHelloConfigList) != "retry-configs" {
+							viol = fmt.Sprintf("retry of attempt %d does not use the server's retry configs", i)
+						}
+					}
+					mu.Unlock()
+					e := c18Event{Kind: evKind, Target: i, T: time.Since(start), CtxErr: ctx.Err() != nil}
 					if dl, ok := ctx.Deadline(); ok {
 						e.HasDL, e.Deadline = true, dl.Sub(start)-e.T
 					}
@@ -146,13 +165,25 @@ func TestC18(t *testing.T) {
 						mu.Unlock()
 						return c
 					}
-					switch b.Kind {
-					case "ok", "fail":
-						tm := time.NewTimer(b.D)
+					switch kindNow {
+					case "reject_retry":
+						tm := time.NewTimer(dNow)
 						defer tm.Stop()
 						select {
 						case <-tm.C:
-							if b.Kind == "ok" {
+							mu.Lock()
+							rejected[i] = true
+							mu.Unlock()
+							return nil, fmt.Errorf("%w: %w", sentinels[i], &tls.ECHRejectionError{RetryConfigList: []byte("retry-configs")})
+						case <-ctx.Done():
+							return finish(nil, fmt.Errorf("%w: %w", sentinels[i], ctx.Err()))
+						}
+					case "ok", "fail":
+						tm := time.NewTimer(dNow)
+						defer tm.Stop()
+						select {
+						case <-tm.C:
+							if kindNow == "ok" {
 								return finish(mk(), nil)
 							}
 							return finish(nil, sentinels[i])
@@ -211,11 +242,15 @@ func TestC18(t *testing.T) {
 				dialable = append(dialable, i)
 			}
 		}
-		var starts, finishes []c18Event
+		var starts, finishes, restarts []c18Event
+		var cl0 []string
 		for _, e := range events {
-			if e.Kind == "start" {
+			switch e.Kind {
+			case "start":
 				starts = append(starts, e)
-			} else {
+			case "restart":
+				restarts = append(restarts, e)
+			default:
 				finishes = append(finishes, e)
 			}
 		}
@@ -315,6 +350,26 @@ func TestC18(t *testing.T) {
 				ev.Violation(rt, "C18", rp, "attempt %d runs with deadline %v (has=%v), Timeout is %v", s.Target, s.Deadline, s.HasDL, effTimeout)
 			}
 		}
+		// 4b. the retry after an ECH rejection belongs to the same attempt: it ends by the
+		// deadline the attempt began with
+		startOf := map[int]c18Event{}
+		for _, s := range starts {
+			startOf[s.Target] = s
+		}
+		nre := map[int]int{}
+		for _, r := range restarts {
+			nre[r.Target]++
+			s0, ok := startOf[r.Target]
+			if !ok || nre[r.Target] > 1 {
+				ev.Violation(rt, "C18", rp, "attempt %d retried %d times (started=%v)", r.Target, nre[r.Target], ok)
+			}
+			if !r.HasDL || r.T+r.Deadline > s0.T+effTimeout {
+				ev.Violation(rt, "C18", rp, "the retry of attempt %d after an ECH rejection may run until %v although the attempt began at %v and Timeout is %v", r.Target, r.T+r.Deadline, s0.T, effTimeout)
+			}
+		}
+		if len(restarts) > 0 {
+			cl0 = append(cl0, "ech_reject_retry")
+		}
 		// 9. attempts begun after the outcome see a cancelled context
 		for _, s := range starts {
 			if s.T > retAt && !s.CtxErr {
@@ -330,7 +385,7 @@ func TestC18(t *testing.T) {
 			}
 		}
 		cancelledFirst := cancelAt >= 0 && (firstOK == nil || cancelAt < firstOK.T)
-		var cl []string
+		cl := cl0
 		switch {
 		case retErr == nil:
 			if retConn == nil {
@@ -456,7 +511,7 @@ func TestC18(t *testing.T) {
 		}
 		var shape []string
 		for _, b := range bs {
-			shape = append(shape, fmt.Sprintf("%s/%v/%v%v", b.Kind, b.D, b.ErrTarget, b.Filtered))
+			shape = append(shape, fmt.Sprintf("%s/%v/%s/%v/%v%v", b.Kind, b.D, b.Kind2, b.D2, b.ErrTarget, b.Filtered))
 		}
 		rec.Case(fmt.Sprintf("%v|%d|%v|%v|%v|%s", shape, maxc, delay, timeout, cancelAt, network), len(dialable) >= 2 && nOK >= 1, cl, func() any {
 			return map[string]any{"targets": shape, "max_concurrency": maxc, "delay": delay.String(), "timeout": timeout.String(), "cancel_at": cancelAt.String(), "events": evs, "returned_at": retAt.String(), "err": fmt.Sprint(retErr)}
